@@ -145,10 +145,15 @@ fn int_at(s: &[u8]) -> Option<(i64, usize)> {
     while i < s.len() && s[i].is_ascii_digit() {
         i += 1;
     }
-    if i == d0 || i - d0 > 15 {
+    if i == d0 {
         return None;
     }
-    let v: i64 = std::str::from_utf8(&s[d0..i]).ok()?.parse().ok()?;
+    // any number of leading zeros, at most 15 significant digits
+    let sig = s[d0..i].iter().skip_while(|c| **c == b'0').count();
+    if sig > 15 || i - d0 > 60 {
+        return None;
+    }
+    let v: i64 = std::str::from_utf8(&s[d0..i]).ok()?.trim_start_matches('0').parse().unwrap_or(0);
     Some((if neg { -v } else { v }, i))
 }
 
